@@ -109,7 +109,9 @@ func interp(expr ast.Expr, env *val.Env) *val.Val {
 
 	case *ast.MemberExpr:
 		// 也可以 desugar 成 build-in-fun
-		return interp(e.Obj, env).Obj().V[e.Index]
+		// 对象类型相等不考虑字段顺序, 所以必须按名称而不是静态类型的下标取值
+		v, _ := interp(e.Obj, env).Obj().Get(e.Field.Name)
+		return v
 
 	//case *ast.IfExpr:
 	//	// IF 已经 desugar 成 lazyFun 了, 这里已经没用了
